@@ -308,6 +308,14 @@ def isEntry (spans : List Span) (s : Span) : Bool :=
 /-- `Duration` as stored at ingest (end − start, uint64) converted "from nanoseconds to milliseconds" -/
 def durMs (s : Span) : Nat := wsub s.end_ s.start / 1000000
 
+/-- the window ProcessRedTracesIngest collects its spans from: the last 5 minutes (`StartEpoch: "now-5m"`,
+`redMetricsWindowMins`), in seconds.  `Rate` is the number of entry spans PER SECOND over that window (the unit the
+service-health page prints: "Rate (Request per Second)"). -/
+def redWindowSecs : Nat := 5 * 60
+
+/-- BEFORE the repair c12-8 the count of the 5-minute window was divided by 60 -/
+def redDivisorOld : Nat := 60
+
 structure RedRow where
   service : Nat
   cnt : Nat
@@ -330,7 +338,7 @@ def redRow (spans : List Span) (svc : Nat) : RedRow :=
   let (p95, d3) := pct d2 95
   let (p99, _) := pct d3 99
   { service := svc, cnt := cnt, err := err,
-    rate := Dy.div (Dy.ofNat cnt) (Dy.ofNat 60),
+    rate := Dy.div (Dy.ofNat cnt) (Dy.ofNat redWindowSecs),
     errRate := Dy.mul (Dy.div (Dy.ofNat err) (Dy.ofNat cnt)) (Dy.ofNat 100),
     p50 := p50, p90 := p90, p95 := p95, p99 := p99 }
 
